@@ -131,17 +131,18 @@ type res struct {
 }
 
 type wctr struct {
-	slot  string // c<i>
-	spec  *ctrSpec
-	pod   *wpod
-	inc   int
-	life  int
-	told  res
-	init  res
-	req   updSpec // current resource request of the container (changes with update events)
-	rank  int     // creation order
-	toldN int     // number of adjustments/updates applied
-	cold  bool    // the cold-start period of this incarnation has been ended (colddone delivered)
+	slot     string // c<i>
+	spec     *ctrSpec
+	pod      *wpod
+	inc      int
+	life     int
+	told     res
+	init     res
+	req      updSpec // current resource request of the container (changes with update events)
+	rank     int     // creation order
+	toldN    int     // number of adjustments/updates applied
+	cold     bool    // the cold-start period of this incarnation has been ended (colddone delivered)
+	cfgAtAdm int     // index of the configuration in force when this incarnation was admitted
 }
 
 // coldTimerArmed: the policy has armed a cold-start timer for the container. Only then can a cold-start-done event
@@ -673,6 +674,7 @@ func (x *exec) step(ev string) *reply {
 		c.req = updSpec{cpuReq: t.cpuReq, cpuLim: t.cpuLim, memLim: t.memLim}
 		c.init = resFromNRI(encodeRes(c.req, res{Cpus: t.initCpus, Mems: t.initMems}))
 		c.told = c.init
+		c.cfgAtAdm = w.cfgIdx
 		rp.target = c
 		w.byID[c.id()] = c
 		msg := c.nri(api.ContainerState_CONTAINER_CREATED, c.init)
@@ -848,6 +850,7 @@ func (x *exec) step(ev string) *reply {
 						w.rank++
 						c.rank = w.rank
 						c.life = lifeRunning
+						c.cfgAtAdm = w.cfgIdx
 						w.byID[c.id()] = c
 						break
 					}
